@@ -90,6 +90,13 @@ def _normalise(text):
             cands = [p for p in present if p.split("::")[-1] == name]
             if len(cands) == 1:
                 moves[cands[0]] = home
+    # the two statics are recognised by what they are, whatever they are called and wherever they sit
+    STATIC_SHAPES = {"actor::service::REGISTRY": "async_lock::rwlock::RwLock<std::collections::hash::map::HashMap<core::any::TypeId", "context::id::CONTEXT_ID": "core::sync::atomic::Atomic<u64>"}
+    for home, shape in STATIC_SHAPES.items():
+        if home not in have["static"]:
+            cands = [s["def"] for s in d.get("statics", []) if shape in s.get("ty", "") and s["def"] not in STATIC_SHAPES]
+            if len(cands) == 1:
+                moves[cands[0]] = home
     for src in sorted(moves, key=len, reverse=True):
         text = re.sub(r"(?<![A-Za-z0-9_:])" + re.escape(src) + r"(?![A-Za-z0-9_])", moves[src], text)
     return text
